@@ -336,6 +336,14 @@ def run(case):
                             why.append(f"high-level object {name} disagrees numerically with the values form on {types[w]}")
                             break
     out = {"v": vout if not why else None, "h": hout}
+    if desc == "wcs" and not case["fam"]:
+        # the array axes of every world object, as crop and the sequence views obtain them
+        try:
+            from astropy.wcs.wcsapi import HighLevelWCSWrapper
+            from ndcube.utils.wcs import array_indices_for_world_objects
+            out["o"] = [[int(a) for a in axes_] for axes_ in array_indices_for_world_objects(HighLevelWCSWrapper(ll))]
+        except Exception as e:  # noqa
+            why.append(f"array_indices_for_world_objects raised {exc_name(e)}")
     return {"out": _ser(out), "oracle": {"ok": not why, "why": "; ".join(why), "finding": None}}
 
 
@@ -377,7 +385,7 @@ def _ci(x):
 
 def coq_case(case, res):
     o = res["out"]
-    TRIV = 'mk 0%nat [] None [] [] [] [] false [] (Some []) (Some [])'
+    TRIV = 'mk 0%nat [] None [] [] [] [] false [] (Some []) (Some []) None'
     ec2 = case.get("ec2")
     if case["fam"] or (ec2 and ec2["k"] != "wcsec"):
         return TRIV
@@ -443,5 +451,6 @@ def coq_case(case, res):
         Q.tup(Q.nat(w), Q.lst(sh, Q.z), Q.lst([_cq(x) for x in vals])) for w, sh, vals in o["v"]]) + ")"
     h = "None" if o["h"] is None else "(Some " + Q.lst(o["h"], Q.z) + ")"
     tstr = Q.lst([f'"{t}"' for t in tt])
+    oi = "None" if o.get("o") is None else "(Some " + Q.lst([Q.lst(x, Q.nat) for x in o["o"]]) + ")"
     return (f"mk {Q.nat(n)} {Q.lst(shp, Q.z)} {pmap} {Q.lst([Q.lst([_ci(x) for x in r]) for r in Am])} "
-            f"{Q.lst([_ci(x) for x in bm])} {tstr} {Q.lst(gg, Q.z)} {Q.b(case['corners'])} {reqs} {v} {h}")
+            f"{Q.lst([_ci(x) for x in bm])} {tstr} {Q.lst(gg, Q.z)} {Q.b(case['corners'])} {reqs} {v} {h} {oi}")
